@@ -98,8 +98,10 @@ def alphabet(kind, tier):
     T = tier == "thorough"
     c = "__call__"
     if kind == "int":
-        vals = [0, 7, True, 2 ** 63, -1] + WRONG
-        bounds = [0, 7, -1, 8, 2 ** 63, True, 1.0, "x", None, E, Nil]
+        # 10**400 is beyond the float range (anything that converts an int bound or value to a
+        # float, e.g. to format it, overflows)
+        vals = [0, 7, True, 2 ** 63, -1, 10 ** 400] + WRONG
+        bounds = [0, 7, -1, 8, 2 ** 63, True, 1.0, "x", None, E, Nil, 10 ** 400 + 1, -10 ** 400]
         return [(c, (v,)) for v in vals] + [(m, (v,)) for m in ("min", "max") for v in bounds]
     if kind == "float":
         # 1.46 / 1.54 round to 1.5 at precision 1: a bound of 1.5 lies between value and grid point
